@@ -2,6 +2,7 @@ package simulation
 
 import (
 	"fmt"
+	"sort"
 
 	"github.com/simimpact/srsim/pkg/engine/event"
 	"github.com/simimpact/srsim/pkg/engine/hook"
@@ -30,8 +31,15 @@ func (sim *Simulation) Run() (*model.IterationResult, error) {
 // initialize the sim and create characters from the config to prep for execution
 func initialize(sim *Simulation) (stateFn, error) {
 	// enable all registered startup hooks
-	for k, hook := range hook.StartupHooks() {
-		if err := hook(sim); err != nil {
+	// in a fixed order: hooks subscribe listeners, and listeners run in subscription order
+	startupHooks := hook.StartupHooks()
+	hookNames := make([]string, 0, len(startupHooks))
+	for k := range startupHooks {
+		hookNames = append(hookNames, k)
+	}
+	sort.Strings(hookNames)
+	for _, k := range hookNames {
+		if err := startupHooks[k](sim); err != nil {
 			return nil, fmt.Errorf("error executing hook %v", k)
 		}
 	}
